@@ -240,8 +240,30 @@ def check_guards(run, f, cfg):
             if ok:
                 inits = [n for n in walk(body) if n.get("k") == "stmt_let" and n["pat"].get("k") == "bind" and n["pat"]["name"] == flag]
                 iok = len(inits) == 1 and H.peel_ref(inits[0]["init"]).get("k") == "lit" and H.peel_ref(inits[0]["init"])["lit"]["v"] is True
-                run.ob("C19.R2", "enum:flag-init", iok, "the flag starts as true", sp=fn["sp"], cfg=cfg)
                 assigns = [n for n in walk(body) if n.get("k") in ("assign", "assignop") and H.place(n["l"]) == flag]
+                # the other spelling of the same conjunction: `let flag = variants.iter().all(|v| v.must_be_valid_iden())`
+                conj = False
+                if len(inits) == 1 and not assigns and not iok:
+                    i0 = H.peel_ref(inits[0]["init"])
+                    if i0.get("k") == "mcall" and i0.get("name") == "all" and len(i0.get("args") or []) == 1 and H.peel_ref(i0["args"][0]).get("k") == "closure":
+                        clo = H.peel_ref(i0["args"][0])
+                        cb = H.peel_ref(H.peel(clo["body"]))
+                        ps = clo.get("params") or []
+                        pn = (ps[0].get("pat") or ps[0]).get("name") if len(ps) == 1 else None
+                        rc, chain_ok = H.peel_ref(i0["recv"]), True
+                        while rc.get("k") == "mcall":
+                            chain_ok = chain_ok and rc.get("name") in ("iter", "into_iter", "as_slice", "as_ref") and not rc.get("args")
+                            rc = H.peel_ref(rc["recv"])
+                        conj = bool(pn) and cb.get("k") == "mcall" and cb.get("name") == "must_be_valid_iden" and H.place(cb["recv"]) == pn and \
+                            (cb.get("callee") or "").endswith("IdenVariant::<'a, T>::must_be_valid_iden") and chain_ok and rc.get("k") == "local"
+                if conj:
+                    run.ob("C19.R2", "enum:flag-init", True, "the flag is the conjunction `<variants>.iter().all(|v| v.must_be_valid_iden())` (true for no variants)", sp=fn["sp"], cfg=cfg)
+                    run.ob("C19.R2", "enum:flag-update", True, "the flag is defined once, as that conjunction over every variant, and never assigned", sp=fn["sp"], cfg=cfg)
+                    chain = [c.get("name") for c in H.calls(body) if c.get("k") == "mcall" and c["name"] in ("filter", "take", "skip", "step_by", "filter_map", "take_while", "skip_while")]
+                    run.ob("C19.R2", "enum:all-variants", not chain, "every variant passes through the validating closure (`all` over the collection; no filtering adaptor "
+                           "anywhere in the function)", sp=fn["sp"], cfg=cfg, detail=chain)
+                    continue
+                run.ob("C19.R2", "enum:flag-init", iok, "the flag starts as true", sp=fn["sp"], cfg=cfg)
                 aok = len(assigns) == 1 and assigns[0].get("k") == "assignop" and assigns[0].get("op") == "&="
                 if aok:
                     r = H.peel_ref(assigns[0]["r"])
